@@ -3,25 +3,31 @@ from common import *
 PROPS = {
     'C14': dict(
         engine='safety', driver='safety', stateful=False,
-        lean=['XV.Props.C14'],
+        lean=['XV.Props.C14', 'XV.Props.C14b'],
         level='proof',
+        # second engine: WHICH validator set xpoa / tdpos CheckMinerMatch check the justify certificate against (the set in force for the certified view)
+        extra=[dict(engine='bftmatch', driver='bftmatch', stateful=False, timeout={'quick': 600, 'thorough': 3000})],
         trusted_base=[KERNEL, TRANSLATOR, HARNESS, CRYPTO,
-                      "modelled by hand (tied by correspondence, not by translation): the signature loop of CheckProposal and CheckVote; translated from source: CalVotesThreshold, CheckPacemaker"],
+                      "modelled by hand (tied by correspondence, not by translation): the signature loop of CheckProposal and CheckVote; translated from source: CalVotesThreshold, CheckPacemaker",
+                      "bftmatch: modelled by hand and tied by correspondence on the real plugins (every candidate block's verdict): the validator-set lookup of xpoa GetLocalValidates/getValidates and tdpos CalOldProposers/calHisValidators/calTopKNominator as used by CheckMinerMatch, the StartHeight exemption and the missing-justify rejection; the stub ledger (blocks, per-block snapshots of the validator keys) is trusted to present the recorded history"],
         assumptions=["validator lists have no repeated address", "view-number / pending-tree preconditions of CheckProposal are satisfied (the certified proposal is in the local tree)",
-                     "no signature forgery: an entry verifies only if produced with the private key of the claimed address"],
+                     "no signature forgery: an entry verifies only if produced with the private key of the claimed address",
+                     "bftmatch: the ledger the node checks against is an honest chain (stored tdpos terms non-decreasing and equal to the term of the block's timestamp, at most proposer_num*block_num blocks per term); the certificate certifies the id of the block's predecessor and the candidate's height is within tip-2..tip+1 (so the pending-tree precondition of CheckProposal holds); validator sets are non-empty and duplicate-free; tdpos sets have exactly proposer_num members"],
     ),
 }
 
 ENGINES = [
+    dict(name='bftmatch', path='go/cmd/bftmatch + lean/XV/Model/BftMatch.lean', serves_properties=['C14'],
+         kind_free_text='Lean model of the validator-set lookup behind xpoa / tdpos CheckMinerMatch (history of set changes -> set in force for the certified view) on top of the safety model; harness builds the real plugins with chained-bft on a stub ledger with per-block snapshots and presents candidate blocks around validator-set changes with real signatures'),
     dict(name='safety', path='go/cmd/safety + lean/XV/Model/Safety.lean', serves_properties=['C14'],
          kind_free_text='Lean model of CheckProposal/CheckVote + translated CalVotesThreshold; harness drives the real DefaultSaftyRules with real ECDSA keys'),
 ]
 
 META = {
     'C14': dict(
-        text="Kernel-checked theorems (lean/XV/Props/C14.lean) about the certificate check: the threshold function regenerated from saftyrules.go decides k+1 >= n - floor((n-1)/3) for every n>=1 (threshold_value); acceptance implies that many distinct members with valid signatures over the certified id, for every validator set and every multiset of entries (qc_needs_quorum_partial, counted_le_validMembers); repeated entries, non-members and invalid signatures never help (repeat_irrelevant, nonmember_irrelevant, invalid_member_sig_rejects). The full statement (quorum besides the collector) is refuted on model and code (qc_needs_quorum_counterexample, known finding collector-counted) and proved under 'collector has no entry' (qc_needs_quorum_no_collector_entry). Tie: CalVotesThreshold/CheckPacemaker are translated from source on every run; the loop model is compared with the real CheckProposal/CheckVote using real keys and signatures on all multisets for small n and random ones up to n=10.",
+        text="Kernel-checked theorems (lean/XV/Props/C14.lean) about the certificate check: the threshold function regenerated from saftyrules.go decides k+1 >= n - floor((n-1)/3) for every n>=1 (threshold_value); acceptance implies that many distinct members with valid signatures over the certified id, for every validator set and every multiset of entries (qc_needs_quorum_partial, counted_le_validMembers); repeated entries, non-members and invalid signatures never help (repeat_irrelevant, nonmember_irrelevant, invalid_member_sig_rejects). The full statement (quorum besides the collector) is refuted on model and code (qc_needs_quorum_counterexample, known finding collector-counted) and proved under 'collector has no entry' (qc_needs_quorum_no_collector_entry). Tie: CalVotesThreshold/CheckPacemaker are translated from source on every run; the loop model is compared with the real CheckProposal/CheckVote using real keys and signatures on all multisets for small n and random ones up to n=10. Second engine bftmatch (lean/XV/Props/C14b.lean, lean/XV/Model/BftMatch.lean): for EVERY history of validator-set changes, the verdict of xpoa / tdpos CheckMinerMatch on the justify certificate depends on the chain only through the set in force for the CERTIFIED view (match_uses_certified_view, checkMinerMatch_uses_certified_view, td_match_uses_certified_view) - an edit recorded above block view-4 (xpoa) / above 3 blocks before the first block of the predecessor's term (tdpos) never changes it (match_ignores_later_edits, td_match_ignores_later_edits; xpoa_edit_in_force / xpoa_edit_not_yet_in_force locate the boundary at edit height + 4); acceptance implies a quorum of distinct valid members of THAT set (match_needs_quorum_of_view_set, ..._no_collector_entry for the full statement; the full statement is refuted by match_needs_quorum_of_view_set_counterexample = known finding collector-counted); entries of addresses outside that set never change the verdict, all of them can be dropped, and a certificate signed only by them is rejected for n>=2 (other_set_never_helps, other_set_entries_dropped, other_set_alone_rejected, td_ variants). Tie: the real xpoa and tdpos plugins are built with chained-bft through their constructors on a stub ledger whose snapshots depend on the block (7 variants of the new set, n up to 10, one or two edits, later StartHeight, rollback markers, term changes); for every tip height around the change the candidate block (correct proposer and timestamp for its slot) is presented to the real CheckMinerMatch with 15 classes of certificate (quorum of the view's set, quorum of the other set only, mixed, below quorum, outsiders, repeated, wrong id / corrupted / key mismatch, empty, no justify) and the verdict is compared with the model; the impl-side oracle recomputes the set in force for the certified view from the recorded history and reports acceptance without a quorum of it (keys wrong-set:<which>, collector-counted, ...), rejection of a genuine quorum (genuine-quorum-rejected), a missing certificate accepted above StartHeight and a rejected StartHeight block.",
         design_ref='DESIGN.md §6 C14',
-        note="Trusted: Lean kernel, the go/ast translator, the harness. ECDSA/address derivation are run for real in the harness but abstracted to a boolean in the model. Not covered: view-number preconditions of CheckProposal, tdpos/xpoa CheckMinerMatch wrappers (they pass the previous block's validator set to the same function).",
+        note="Trusted: Lean kernel, the go/ast translator, the harness. ECDSA/address derivation are run for real in the harness but abstracted to a boolean in the model. Not covered: view-number / pending-tree preconditions of CheckProposal (the bftmatch harness keeps them satisfied); the proposer half of CheckMinerMatch is C16's. bftmatch models the lookup the code performs for a block whose predecessor is in the ledger; tdpos: the historical lookup (first block F of the term, snapshot F-3) differs by one block from what the live miner used when it opened the term (snapshot of tip-3 = F-4) - the model follows the historical lookup, which is what CheckMinerMatch runs.",
         technique='Lean 4 proof over translated threshold function + hand model of the signature loop; exhaustive/random differential correspondence with real signatures',
     ),
 }
